@@ -867,3 +867,75 @@ impl<T> VIter<T> {
     pub fn collect_vec(self) -> (r: Vec<T>) ensures r@ == self.v@ { self.v }
 }
 """
+
+
+# ---------------------------------------------------------------------------------------------------------------------
+# format!/write! argument lists with `{}` and inline `{name}` placeholders only: the pieces appended in order.  The generated file needs
+# FORMAT_PRELUDE (trait Disp: Display of a char / a text / a number).
+FORMAT_PRELUDE = r"""
+pub fn strlit_chars(s: &'static str) -> (r: Vec<char>) ensures r@ == s@ { s.chars().collect() }
+pub fn push_chars(dst: &mut Vec<char>, src: &Vec<char>)
+    ensures final(dst)@ == old(dst)@ + src@
+{
+    let mut i: usize = 0;
+    while i < src.len()
+        invariant i <= src@.len(), dst@ == old(dst)@ + src@.subrange(0, i as int)
+        decreases src@.len() - i
+    { dst.push(src[i]); i += 1; proof { assert(src@.subrange(0, i as int) =~= src@.subrange(0, i - 1).push(src@[i - 1])); } }
+    proof { assert(src@.subrange(0, src@.len() as int) =~= src@); }
+}
+pub uninterp spec fn dec_text(n: int) -> Seq<char>;          // the decimal numeral of n (Display of an integer)
+pub trait Disp { spec fn disp(&self) -> Seq<char>; fn push_to(&self, out: &mut Vec<char>) ensures final(out)@ == old(out)@ + self.disp(); }
+impl Disp for char { open spec fn disp(&self) -> Seq<char> { seq![*self] } fn push_to(&self, out: &mut Vec<char>) { out.push(*self); } }
+impl Disp for Vec<char> { open spec fn disp(&self) -> Seq<char> { self@ } fn push_to(&self, out: &mut Vec<char>) { push_chars(out, self); } }
+impl Disp for usize { open spec fn disp(&self) -> Seq<char> { dec_text(*self as int) } #[verifier::external_body] fn push_to(&self, out: &mut Vec<char>) { unimplemented!() } }
+"""
+
+
+def format_args(b):
+    """argument list `"lit{}lit{name}..", a, b` (pattern variable `a`) -> a block that appends the pieces in order"""
+    toks = b["a"]
+    lit = toks[0]
+    if not (lit.startswith('"') and lit.endswith('"')):
+        return None
+    rest, cur, d = [], [], 0
+    for t in toks[1:]:
+        if t in ("(", "[", "{"): d += 1
+        elif t in (")", "]", "}"): d -= 1
+        if t == "," and d == 0:
+            if cur: rest.append(cur)
+            cur = []
+        else:
+            cur.append(t)
+    if cur: rest.append(cur)
+    s = lit[1:-1]
+    parts, i, acc = [], 0, ""
+    while i < len(s):
+        if s[i] == "{":
+            j = s.find("}", i)
+            if j < 0: return None
+            name = s[i + 1:j]
+            if acc: parts.append(("lit", acc)); acc = ""
+            if name == "":
+                if not rest: return None
+                parts.append(("expr", text(rest.pop(0))))
+            elif re.match(r"[A-Za-z_]\w*$", name):
+                parts.append(("expr", name))
+            else:
+                return None
+            i = j + 1
+        elif s[i] == "\\":
+            acc += s[i:i + 2]; i += 2
+        else:
+            acc += s[i]; i += 1
+    if acc: parts.append(("lit", acc))
+    if rest: return None
+    out = ["{ let mut verif_out : Vec < char > = Vec :: new ( ) ;"]
+    for k, v in parts:
+        if k == "lit":
+            out.append(f'push_chars ( & mut verif_out , & strlit_chars ( "{v}" ) ) ;')
+            out.append(G(f'proof {{ reveal_strlit("{v}"); }}'))
+        else:
+            out.append(f"( {v} ) . push_to ( & mut verif_out ) ;")
+    out.append("verif_out }")
+    return out
